@@ -233,6 +233,11 @@ def refine(ctx, m):
 
 def prove_with_refinement(ctx, label, cond):
     """Ctx.prove + function-level replay + CEGAR on the abstractions. Returns verdict string."""
+    if ctx.want is not None:
+        head = label.split(":", 1)[0]
+        ps = [x.strip() for x in head.split(",")]
+        if not any(p in ctx.want for p in ps):
+            return True
     if isinstance(cond, (bool, _np.bool_)):
         if cond:
             ctx.obls.append((label, "unsat", None, None))
@@ -368,31 +373,10 @@ def validate_path(h, cfg, ctx, pm):
             if not feval(a, env, defs):
                 return None
         return env
-    try:
-        cand = vals
-        env = onpath(cand)
-        tries = 0
-        while env is None and tries < 12:
-            tries += 1
-            cand = {}
-            for n, v in vals.items():
-                if ctx.input_kind[n] == "real" and isinstance(v, float):
-                    cand[n] = v * (1 + rnd.uniform(-1, 1) * 10 ** rnd.uniform(-9, -3)) + rnd.uniform(-1, 1) * 10 ** rnd.uniform(-12, -6)
-                else:
-                    cand[n] = v
-            env = onpath(cand)
-        if env is None:
-            cand = vals
-            env = {names[n]: vals[n] for n in names}
-            on = False
-        else:
-            on = True
-        if cand is not vals:
-            st, cc = run_concrete(h, cfg, cand)
-            if st != "ok":
-                return "ok-offpath", None
+    def compare(env, cc_):
+        """None if all outputs agree, else a description"""
         for name, sym in ctx.outputs.items():
-            cv = cc.outputs.get(name)
+            cv = cc_.outputs.get(name)
             if isinstance(sym, core.SArr) or isinstance(sym, (list, tuple, _np.ndarray)):
                 pairs = list(zip(list(sym), list(cv)))
             else:
@@ -401,9 +385,7 @@ def validate_path(h, cfg, ctx, pm):
                 if isinstance(s_, core.SNaN):
                     cf = _tofloat(c_)
                     if cf is not None and not math.isnan(cf):
-                        if on:
-                            return "mismatch", f"output {name}: symbolic NaN, concrete {c_}"
-                        return "ok-offpath", None
+                        return f"output {name}: symbolic NaN, concrete {c_}"
                     continue
                 sv = feval(core.R(s_), env, defs) if isinstance(s_, (core.SF, core.SB)) else _tofloat(s_)
                 cf = _tofloat(c_)
@@ -411,16 +393,50 @@ def validate_path(h, cfg, ctx, pm):
                     continue
                 if isinstance(sv, bool): sv = float(sv)
                 if not (abs(sv - cf) <= 1e-7 * max(1.0, abs(sv), abs(cf))):
-                    if on:
-                        return "mismatch", f"output {name}: symbolic {sv!r} concrete {cf!r} inputs {cand}"
-                    return "ok-offpath", None
-        return "ok", None
+                    return f"output {name}: symbolic {sv!r} concrete {cf!r}"
+        return None
+
+    def perturb():
+        c = {}
+        for n, v in vals.items():
+            if ctx.input_kind[n] == "real" and isinstance(v, float):
+                c[n] = v * (1 + rnd.uniform(-1, 1) * 10 ** rnd.uniform(-9, -3)) + rnd.uniform(-1, 1) * 10 ** rnd.uniform(-12, -6)
+            else:
+                c[n] = v
+        return c
+    try:
+        # a model sits on a vertex of the path polytope: knife-edge comparisons may resolve differently in IEEE
+        # arithmetic. A mismatch counts only if it persists on perturbed (interior) points of the same path.
+        tried = 0
+        bad = None
+        for k in range(14):
+            cand = vals if k == 0 else perturb()
+            env = onpath(cand)
+            if env is None:
+                continue
+            if k == 0:
+                cc_ = cc
+            else:
+                st, cc_ = run_concrete(h, cfg, cand)
+                if st != "ok":
+                    continue
+            d = compare(env, cc_)
+            if d is None:
+                return "ok", None
+            tried += 1
+            bad = f"{d} inputs {cand}"
+            if tried >= 3:
+                break
+        if tried >= 2:
+            return "mismatch", bad
+        return "ok-offpath", bad
     except FevalError as e:
         return "ok-noeval", str(e)
 
 
 # --------------------------------------------------------------------------- chunk worker
 _WCTX = {}
+WANT = [None]     # set of property ids whose obligations are discharged (None = all); inherited by forked workers
 
 
 def _get_ctx(h):
@@ -437,6 +453,7 @@ def run_chunk(task):
     hname, cfgkey, cfg, prefixes, budget_paths, budget_s, validate = task
     h = HARNESSES[hname]
     ctx = _get_ctx(h)
+    ctx.want = WANT[0]
     q0, t0s, u0 = ctx.nq, ctx.tsolve, ctx.unknown
     t0 = time.time()
     work = list(prefixes)
